@@ -34,6 +34,13 @@ for it in range(N):
             if abs(got - want) > 1e-9: fails.append(dict(clause="rebalance-hits-(1-cash)w-and-closes-others", child=nm, got=got, want=float(want), cash=cash, step=step)); ok_all = False
         if abs(float(st.capital / st.value) - (1 - (1 - cash) * float(np.sum(w)))) > 1e-9: fails.append(dict(clause="remainder-stays-in-cash", got=float(st.capital / st.value), cash=cash))
         st.update(t.dates[2 + step])
+    # a user algo that keeps ONE target dict and hands it over every period, with a cash fraction: every rebalance lands on (1-c) x w again
+    keep = {"a": 0.5, "b": 0.25}; cfrac = float(rs.choice([0.2, 0.4]))
+    for step in range(3):
+        st.temp = {"weights": keep, "cash": cfrac}; A.Rebalance()(st); evals += 1
+        for nm, w_ in (("a", 0.5), ("b", 0.25)):
+            if abs(float(st.children[nm].weight) - (1 - cfrac) * w_) > 1e-9: fails.append(dict(clause="rebalance-hits-(1-cash)w-and-closes-others", child=nm, got=float(st.children[nm].weight), want=(1 - cfrac) * w_, cash=cfrac, step=step, same_dict_reused=True))
+        if keep != {"a": 0.5, "b": 0.25}: fails.append(dict(clause="target-weights-handed-over-are-not-modified", now=dict(keep)))
     if it < 2: samples.append(dict(final_weights={n: float(c.weight) for n, c in st.children.items()}))
     # RebalanceOverTime over n periods with moving prices
     n = int(rs.randint(2, 5)); data = mkdata(n + 3)
